@@ -198,10 +198,8 @@ inductive PartRule
   | off                        -- `False` / `None`: as if the key were absent
   deriving Repr, Inhabited, DecidableEq
 
-/-- `HTTPURLValidator.all_parts` (the class default) -/
-def httpPartNames : List Str :=
-  ["scheme".toList, "username".toList, "password".toList, "hostname".toList, "port".toList,
-   "path".toList, "params".toList, "query".toList, "fragment".toList]
+/-- `HTTPURLValidator.all_parts` (the class default): regenerated from /repo's current source -/
+def httpPartNames : List Str := Flatland.Generated.C15.httpAllParts
 
 def PartVal.get : PartVal → Except Raise (Option Str)
   | .raises => .error .valueError
